@@ -45,6 +45,7 @@ type command struct {
 	desc      string
 	pieces    []piece
 	extraTags []string // further complete commands pipelined in the last piece (each must be answered too)
+	mayClose  bool     // the line is not a command at all: the server may drop the connection without any reply
 	truncated bool     // an oversized literal was announced but its payload is not sent in full: stop the dialogue afterwards
 	// expectations about arguments that reach the backend when the command is accepted
 	wantMethod string
@@ -306,6 +307,19 @@ func (g *gen) special(kind int) command {
 		c.pieces = []piece{{data: []byte(c.tag + " IDLE\r\n"), waitCont: true, contKind: "idle", awaitPlus: true},
 			{data: []byte("DONE\r\n" + t2 + " FETCH 1:3 (BODY[] FLAGS)\r\n" + t3 + " STATUS box (MESSAGES UNSEEN)\r\n")}}
 		c.desc = "IDLE with a stream of updates, then DONE and two more commands in one segment"
+	case 22:
+		g.nMarker++
+		c.pieces = []piece{{data: []byte(fmt.Sprintf("{16+}\r\nMK%d OK forged\r\n%s NOOP\r\n", g.nMarker, c.tag))}}
+		c.desc = "a non-synchronising literal where the tag should be"
+		c.mayClose = true
+	case 23:
+		c.pieces = []piece{{data: []byte("{2}\r\n")}, {data: []byte(c.tag + " NOOP\r\n")}}
+		c.desc = "a synchronising literal header where the tag should be"
+		c.mayClose = true
+	case 24:
+		c.pieces = []piece{{data: []byte(fmt.Sprintf("\"A 1\" NOOP\r\n%s NOOP\r\n", c.tag))}}
+		c.desc = "a quoted string where the tag should be"
+		c.mayClose = true
 	case 13:
 		c.pieces = []piece{{data: []byte(fmt.Sprintf("%s LOGIN {%d+}\r\n%s {2+}\r\nhi\r\n", c.tag, len(p), p))}}
 		c.desc = "two non-sync literals (may be refused after authentication)"
@@ -435,6 +449,8 @@ func (r *runner) handler(s *kit.Sess, c *kit.Call, w *kit.Writers) kit.Result {
 
 func capsFor(name string) imap.CapSet {
 	switch name {
+	case "rev1-noauth":
+		return imap.CapSet{imap.CapIMAP4rev1: {}}
 	case "rev1+literal+":
 		return imap.CapSet{imap.CapIMAP4rev1: {}, imap.CapLiteralPlus: {}}
 	case "rev2":
@@ -620,7 +636,7 @@ dialogue:
 			}
 			out, cond := raw.Sync()
 			last := pi == len(c.pieces)-1
-			_, plus := checkLines(c, out, p.waitCont || pendingPlus)
+			_, plus := checkLines(c, out, (p.waitCont || pendingPlus) && !(d.caps == "rev1-noauth" && p.contKind == "auth"))
 			pendingPlus = false
 			ev("S(%s): %s", cond, hx.Hex(out, 200))
 			if cond == "timeout" {
@@ -733,8 +749,10 @@ func sizeClass(s string) string {
 func body(w *hx.W) {
 	r := &runner{w: w, srv: map[string]*kit.Server{}, panicsSeen: map[string]int{}}
 	capsNames := []string{"rev1", "rev1+literal+", "rev2"}
-	for _, cn := range capsNames {
-		s := kit.NewServer(kit.ServerCfg{Caps: capsFor(cn), InsecureAuth: true, Kind: kit.SessFull})
+	for _, cn := range append([]string{"rev1-noauth"}, capsNames...) {
+		// "rev1-noauth": a plaintext server that does not accept credentials (InsecureAuth off): it is
+		// not willing to accept an AUTHENTICATE exchange, so it must not ask for one
+		s := kit.NewServer(kit.ServerCfg{Caps: capsFor(cn), InsecureAuth: cn != "rev1-noauth", Kind: kit.SessFull})
 		s.B.Handler = r.handler
 		r.srv[cn] = s
 		defer s.Close()
@@ -852,7 +870,7 @@ func body(w *hx.W) {
 				}
 			}
 			// specials
-			for k := 0; k <= 19; k++ {
+			for _, k := range []int{0, 1, 2, 3, 4, 5, 6, 7, 8, 9, 10, 11, 12, 13, 14, 15, 16, 17, 18, 19, 22, 23, 24} {
 				for _, state := range []string{"notauth", "auth"} {
 					if (k >= 9 && k <= 11) && state == "notauth" {
 						continue
@@ -915,6 +933,18 @@ func body(w *hx.W) {
 					emit(d)
 				}
 			}
+		}
+		// a server that accepts no credentials on this (plaintext) connection must not start an
+		// AUTHENTICATE exchange
+		for _, k := range []int{6, 7, 8} {
+			d := &dialogue{caps: "rev1-noauth", class: fmt.Sprintf("notauth/noauth-server/special%d", k)}
+			d.cmds = []command{g.special(k), plain(g.tag(), "NOOP")}
+			emit(d)
+		}
+		{
+			d := &dialogue{caps: "rev1-noauth", class: "notauth/noauth-server/login"}
+			d.cmds = []command{g.command("notauth", 2, fSync), plain(g.tag(), "NOOP")}
+			emit(d)
 		}
 		// random multi-command dialogues
 		for i := 0; i < w.Pick(150, 400); i++ {
